@@ -4,7 +4,7 @@ import sem
 from common import build, log
 LEVEL = "model_checking"
 
-FAMILIES = ["prefix1", "prefix2", "prio", "overlap", "literal", "dup", "args", "pslot"]
+FAMILIES = ["prefix1", "prefix2", "prio", "overlap", "literal", "dup", "layered", "args", "pslot"]
 
 
 def run(chk):
@@ -27,9 +27,9 @@ def run(chk):
     chk.cov["traces_validated_against_impl"] = total
     chk.cov["end_to_end_programs_accepted"] = acc
     chk.cov["exhaustive"] = True
-    chk.cov["rule"] = ("TheoMacro (declarative match relation, Best = priority > leftmost > longest) on 8 macro families (prefix patterns in both "
+    chk.cov["rule"] = ("TheoMacro (declarative match relation, Best = priority > leftmost > longest) on 9 macro families (prefix patterns in both "
                        "definition orders, distinct priorities, equal priorities with overlapping candidates, literal identifier/operator/keyword "
-                       "constraints, a slot used twice in a body, ID/INT/VALUE/ARGS/P slots with nested calls and statement sequences): all streams of <= 5 (thorough 6) tokens "
+                       "constraints, a slot used twice in a body, layered macros whose bodies introduce the other pattern's operator, ID/INT/VALUE/ARGS/P slots with nested calls and statement sequences): all streams of <= 5 (thorough 6) tokens "
                        "over the family's vocabulary, every rewriting path; the k-th stream of apply_macros(budget k) must equal the k-th "
                        "specification stream (kinds and texts, temporaries up to renaming); in-model UniquePerLoc, BestAgree; macro-heavy "
                        "generated programs end to end through TheoSem")
